@@ -8,7 +8,7 @@ from props import c18
 
 def run(res, args):
     res.rule = ("the real appcore.HandleMessagesUntilEOF (file handler -> RTCM handler -> fan-out) under the race detector with a "
-                "scripted reader (chunkings from 1 byte to whole stream), 1-4 sinks of capacity 0/1/8 with fast and slow "
+                "scripted reader (chunkings from 1 byte to whole stream, last bytes delivered with EOF, silences of 0.7 s after a stray byte / inside text / inside a frame), 1-4 sinks of capacity 0/1/8 with fast and slow "
                 "consumers and nil entries, GOMAXPROCS 1/2/4/16; every non-nil sink must receive exactly the (type, raw) "
                 "sequence of sequential framing; the call must return 0, no goroutine may be left, no double close, no data race; "
                 "non-trivial = at least two messages and two sinks")
@@ -54,6 +54,24 @@ def run(res, args):
         if all(x == "nil" for x in sinks.split(",")):
             sinks = "0"
         items.append((s, "pipeline %s %s %d 0" % (script, sinks, rng.choice([1, 2, 4, 16]))))
+    # silences of 0.7 s at places where a timer in the framer could change the segmentation: after a single stray
+    # byte, inside a run of text, inside a frame ("however the bytes are chunked in time")
+    for k in range(6 if res.tier == "quick" else 24):
+        fr = b"".join(gen.rand_frame(rng, small=True) for _ in range(rng.randint(1, 3)))
+        text = b"$GNGGA,123519,4807.038,N,01131.000,E,1,08,0.9,545.4,M,46.9,M,,*47\r\n"
+        kind = k % 3
+        if kind == 0:
+            parts = [bytes([rng.choice([0x24, 0x41, 0x0a, 0x00])]), fr + text]
+        elif kind == 1:
+            cut = rng.randint(1, len(text) - 1)
+            parts = [fr + text[:cut], text[cut:] + fr]
+        else:
+            cut = rng.randint(1, len(fr) - 1)
+            parts = [text + fr[:cut], fr[cut:] + text]
+        s = b"".join(parts)
+        script = "d:%s;sleep:700;d:%s" % (parts[0].hex(), parts[1].hex())
+        res.count("silence of 0.7 s " + ["after one stray byte", "inside text", "inside a frame"][kind])
+        items.append((s, "pipeline %s %s %d 0" % (script, rng.choice(["0", "8", "1,0s", "8,nil,1"]), rng.choice([1, 4]))))
     cases = [c for _, c in items]
     exp_lines, e0 = common.run_lines(common.MODEL_BIN, "stream", ["stream %d debug %s" % (framing.T0, gen.hx(s)) for s, _ in items])
     iml, e1 = common.run_lines(common.IMPL_BIN, "stream", ["stream %d debug %s" % (framing.T0, gen.hx(s)) for s, _ in items])
